@@ -1687,9 +1687,22 @@ func udRetx(o *udOut, r *u.Rng, scripted bool) {
 }
 
 
+// udKeyPhases: the spec-driven crypto setup answers every sealer / opener getter with the same
+// class (keys / not yet available / dropped) as the plain one, whichever keys are installed.
+func udKeyPhases(o *udOut) {
+	for _, k := range handshake.VerifUdialKeyPhases() {
+		o.dist["key-phase getter"]++
+		if k.Plain != k.Spec {
+			cls := []string{"keys", "ErrKeysNotYetAvailable", "ErrKeysDropped", "another error"}
+			o.fail("udial/crypto-setup/"+k.Getter, fmt.Sprintf("with %s the spec-driven crypto setup's %s answers %s, the plain crypto setup answers %s", k.Phase, k.Getter, cls[k.Spec], cls[k.Plain]), k.Phase)
+		}
+	}
+}
+
 func runUDial(w *bufio.Writer, seed uint64, n int, args []string) {
 	r := u.NewRng(seed)
 	o := &udOut{w: w, seen: map[string]int{}, dist: map[string]int{}}
+	udKeyPhases(o)
 	defer func() {
 		if p := recover(); p != nil {
 			fmt.Fprintf(w, "MONFAIL\tudial/panic\t%v\t\n", p)
